@@ -163,12 +163,12 @@ pub fn plan(tier: Tier) -> Plan {
             e.extend(crate::clientloop::props::c11_enumerators());
             e
         },
-        rule: "E6 (MQTT 3.1.1 state machine): (a) exhaustively, for every inflight limit 1..=8, every enabled sequence over {publish QoS 1, PUBACK of the oldest unacknowledged publish} up to a length bound, clean() evaluated on a clone after every op; (b) random histories (<= 200 ops, limits 1..=8) of QoS 1 publishes acknowledged in order, inbound traffic and failures that resume the session, so that ids wrap several times. Oracle: the publishes returned by clean() are exactly the unacknowledged ones in the order in which they were first sent. The order clause is asserted only while the history is one the statement covers (QoS 1 only, every ack was for the oldest unacknowledged publish, no rejected ack). A case (for (a): a sequence) is non-trivial when clean() is evaluated with >= 2 unacknowledged publishes whose ids have wrapped (a later publish carries a smaller id). Enumerated sequences are distinct by construction, random ones by case hash.".to_string() + crate::clientloop::props::C11_RULE,
+        rule: "E6 (MQTT 3.1.1 state machine): (a) exhaustively, for every inflight limit 1..=8, every enabled sequence over {publish QoS 1, PUBACK of the oldest unacknowledged publish} up to a length bound, clean() evaluated on a clone after every op; (b) random histories (<= 200 ops, limits 1..=8) of QoS 1 publishes acknowledged in order, inbound traffic and failures that resume the session, so that ids wrap several times; (c) campaign c11_order_mixed: random histories (<= 120 ops) mixing QoS 1 and QoS 2 publishes, PUBACKs for the oldest unacknowledged QoS 1 publish, QoS 2 flows (PUBREC, PUBREL, PUBCOMP) completing at any point, where the QoS 1 subsequence of clean() is compared with the send order; non-trivial there = an order check with >= 2 wrapped QoS 1 publishes after QoS 2 traffic. Oracle: the publishes returned by clean() are exactly the unacknowledged ones in the order in which they were first sent. The order clause is asserted only while the history is one the statement covers ((a),(b): QoS 1 only, every ack was for the oldest unacknowledged publish, no rejected ack; (c): every PUBACK was for the oldest unacknowledged QoS 1 publish, no ack out of its flow). A case (for (a): a sequence) is non-trivial when clean() is evaluated with >= 2 unacknowledged publishes whose ids have wrapped (a later publish carries a smaller id). Enumerated sequences are distinct by construction, random ones by case hash.".to_string() + crate::clientloop::props::C11_RULE,
         assumptions: vec![
             "User requests are fed to the state machine only when EventLoop::select() would feed them: inflight() < limit (v5: < min(limit, receive_max)) and no collision pending; otherwise the op is skipped and counted. The replay of `pending` after a resumed reconnect is fed unconditionally, as the event loop does.".into(),
             "A failure is modelled exactly as the event loop handles any error: clean(); pending kept iff the generated session_present; v5: CONNACK fed to the state machine; pending replayed in order before anything else. Requests still queued in the channel at failure time (K2, repaired in /repo) belong to the event-loop engine and are not generated here.".into(),
             "Every Err returned by the state machine (rejected ack, keep-alive error, server DISCONNECT) is followed by that failure handling, as in EventLoop::poll().".into(),
-            "Histories in which SUBSCRIBE/UNSUBSCRIBE consumed ids or a reconnect without session dropped publishes are outside the main campaign (known finding K9) and probed separately.".into(),
+            "Histories in which SUBSCRIBE/UNSUBSCRIBE consumed ids or a reconnect without session dropped publishes are outside the main campaign (known finding K9) and probed separately. In (c) completed QoS 2 flows consume ids the same way: the order is asserted only when the ids held, in send order, increase cyclically from the id after the last PUBACK (computed from the model); other histories are counted as excluded for K9.".into(),
         ],
         min_nontrivial: 3000,
     }
